@@ -166,8 +166,14 @@ func pairsString(l []spec.Pair) string {
 }
 
 // compareThroughGetters compares the list with the model through Get / GetAll / Has for every name in play.
-func compareThroughGetters(sp *url.SearchParams, model listModel, names []string) string {
-	for _, n := range names {
+// All GetAll results are taken first and judged afterwards, and they are handed to keep(): a result
+// is a list of values of its own, which later calls on the SearchParams must not change.
+func compareThroughGetters(sp *url.SearchParams, model listModel, names []string, keep func(name string, got []string)) string {
+	all := make([][]string, len(names))
+	for i, n := range names {
+		all[i] = sp.GetAll(n)
+	}
+	for i, n := range names {
 		var want []string
 		for _, p := range model {
 			if p.Name == n {
@@ -184,14 +190,17 @@ func compareThroughGetters(sp *url.SearchParams, model listModel, names []string
 		if got := sp.Get(n); got != first {
 			return fmt.Sprintf("Get(%s) = %s, expected %s", quote(n), quote(got), quote(first))
 		}
-		got := sp.GetAll(n)
+		got := all[i]
 		if len(got) != len(want) {
 			return fmt.Sprintf("GetAll(%s) has %d values, expected %d", quote(n), len(got), len(want))
 		}
-		for i := range got {
-			if got[i] != want[i] {
-				return fmt.Sprintf("GetAll(%s)[%d] = %s, expected %s", quote(n), i, quote(got[i]), quote(want[i]))
+		for j := range got {
+			if got[j] != want[j] {
+				return fmt.Sprintf("GetAll(%s)[%d] = %s (read after the GetAll calls for the other names), expected %s", quote(n), j, quote(got[j]), quote(want[j]))
 			}
+		}
+		if keep != nil {
+			keep(n, got)
 		}
 	}
 	return ""
@@ -224,6 +233,26 @@ func validUTF8List(l []spec.Pair) bool {
 		}
 	}
 	return true
+}
+
+func equalStrings(a, b []string) bool {
+	if len(a) != len(b) {
+		return false
+	}
+	for i := range a {
+		if a[i] != b[i] {
+			return false
+		}
+	}
+	return true
+}
+
+func quoteAll(l []string) string {
+	var parts []string
+	for _, s := range l {
+		parts = append(parts, quote(s))
+	}
+	return "[" + strings.Join(parts, " ") + "]"
 }
 
 func validStr(s string) bool { return string([]rune(s)) == s && !strings.ContainsRune(s, 0xFFFD) }
@@ -304,7 +333,7 @@ func check11Parse(c Case11, r *core.Rec) {
 		for _, p := range model {
 			names = append(names, p.Name)
 		}
-		if msg := compareThroughGetters(u2.SearchParams(), model, names); msg != "" {
+		if msg := compareThroughGetters(u2.SearchParams(), model, names, nil); msg != "" {
 			r.Failf("SearchParams of http://h/?%s: %s", quote(q), msg)
 		}
 	}
@@ -322,7 +351,20 @@ func check11Ops(c Case11, r *core.Rec) {
 	for _, p := range model {
 		names[p.Name] = true
 	}
+	type keptResult struct {
+		name      string
+		step      int
+		got, copy []string
+	}
+	var kept []keptResult
+	step := 0
+	keep := func(name string, got []string) {
+		if len(got) > 0 && len(kept) < 64 {
+			kept = append(kept, keptResult{name, step, got, append([]string(nil), got...)})
+		}
+	}
 	for i, o := range c.Ops {
+		step = i + 1
 		if o.Name != "" || o.Op == "append" || o.Op == "set" || o.Op == "delete" {
 			names[string(o.Name)] = true
 		}
@@ -370,9 +412,16 @@ func check11Ops(c Case11, r *core.Rec) {
 			}
 			return "http://h/?" + quote(q) + " ; " + strings.Join(parts, " ; ")
 		}
-		if msg := compareThroughGetters(sp, model, ns); msg != "" {
+		if msg := compareThroughGetters(sp, model, ns, keep); msg != "" {
 			r.Failf("after %s: %s (list model %s)", hist(), msg, pairsString(model))
 			return
+		}
+		// results of GetAll taken after earlier operations still hold what they held then
+		for _, k := range kept {
+			if !equalStrings(k.got, k.copy) {
+				r.Failf("after %s: the slice GetAll(%s) returned after operation %d held %s then and holds %s now", hist(), quote(k.name), k.step, quoteAll(k.copy), quoteAll(k.got))
+				return
+			}
 		}
 		// whole ordered list on a twin built by replaying the same operations
 		tu, _, _ := initialList(q)
